@@ -1,3 +1,813 @@
-(* IdealProofs: placeholder, to be filled in *)
-From Coq Require Import List Arith Lia Bool ZArith.
-From IPC Require Import K.
+(* IdealProofs: the ideal channel model keeps the kernel core well-formed and stable, and its observable
+   outcomes (Disconnected / Empty / message first / send error) are characterised exactly by the handles
+   that exist and the rights that are in transit.  C03, C04, C09 at specification level. *)
+From Coq Require Import List Arith Lia Bool ZArith Permutation.
+From IPC Require Import K KProofs Prog Ideal.
+Import ListNotations.
+
+(* ------------------------------------------------------------------------------------------ *)
+(* definitions                                                                                  *)
+(* ------------------------------------------------------------------------------------------ *)
+Definition handle_refs (hs : list (hid * iobj)) : list ref :=
+  flat_map (fun e => match snd e with IS c => [RS c] | IR c => [RR c] | IGone => [] end) hs.
+
+Definition chan_in_range (k : kst) (r : ref) : Prop :=
+  match r with RS c | RR c => c < length (chans k) | RM _ => True end.
+
+Record i_inv (s : ist) : Prop := {
+  iv_wf : k_wf (ik s);
+  iv_stable : k_stable (ik s);
+  iv_held : Permutation (held (ik s)) (handle_refs (ih s));
+  iv_range_h : Forall (chan_in_range (ik s)) (held (ik s));
+  iv_range_q : forall c ch m r, nth_error (chans (ik s)) c = Some ch -> In m (q ch) -> In r (m_rights m) ->
+               chan_in_range (ik s) r;
+  iv_ids : NoDup (map fst (ih s)) /\ Forall (fun e => fst e < inext s) (ih s);
+  (* strengthening: the ideal model never puts a shared-memory right in transit *)
+  iv_norm_q : forall c ch m o, nth_error (chans (ik s)) c = Some ch -> In m (q ch) -> ~ In (RM o) (m_rights m) }.
+
+(* ------------------------------------------------------------------------------------------ *)
+(* lookup / update                                                                              *)
+(* ------------------------------------------------------------------------------------------ *)
+Lemma lookup_In {B} : forall (l : list (hid * B)) h v, lookup l h = Some v -> In (h, v) l.
+Proof.
+  induction l as [|[x w] t IH]; intros h v H; cbn [lookup] in H; [discriminate|].
+  destruct (Nat.eqb x h) eqn:E.
+  - apply Nat.eqb_eq in E. injection H as ->. subst. now left.
+  - right. now apply IH.
+Qed.
+
+Lemma lookup_not_in {B} : forall (l : list (hid * B)) h, ~ In h (map fst l) -> lookup l h = None.
+Proof.
+  induction l as [|[x w] t IH]; intros h H; cbn [lookup]; auto.
+  cbn [map fst In] in H. destruct (Nat.eqb x h) eqn:E.
+  - apply Nat.eqb_eq in E. exfalso. apply H. now left.
+  - apply IH. intros Hin. apply H. now right.
+Qed.
+
+Lemma In_lookup {B} : forall (l : list (hid * B)) h v, NoDup (map fst l) -> In (h, v) l -> lookup l h = Some v.
+Proof.
+  induction l as [|[x w] t IH]; intros h v Hnd Hin; [contradiction|].
+  cbn [map fst] in Hnd. inversion Hnd as [|? ? Hni Hnd']; subst.
+  cbn [lookup]. destruct Hin as [E|Hin].
+  - injection E as -> ->. now rewrite Nat.eqb_refl.
+  - destruct (Nat.eqb x h) eqn:E.
+    + apply Nat.eqb_eq in E. subst. exfalso. apply Hni.
+      change h with (fst (h, v)). now apply in_map.
+    + now apply IH.
+Qed.
+
+Lemma lookup_app {B} : forall (l1 l2 : list (hid * B)) h,
+  lookup (l1 ++ l2) h = match lookup l1 h with Some v => Some v | None => lookup l2 h end.
+Proof.
+  induction l1 as [|[x w] t IH]; intros l2 h; cbn [lookup app]; auto.
+  destruct (Nat.eqb x h); auto.
+Qed.
+
+Lemma lookup_split {B} : forall (l : list (hid * B)) h v, lookup l h = Some v ->
+  exists l1 l2, l = l1 ++ (h, v) :: l2 /\ forall w, update l h w = l1 ++ (h, w) :: l2.
+Proof.
+  induction l as [|[x u] t IH]; intros h v H; cbn [lookup] in H; [discriminate|].
+  destruct (Nat.eqb x h) eqn:E.
+  - apply Nat.eqb_eq in E. injection H as ->. subst. exists [], t. split; auto.
+    intros w. cbn [update app]. now rewrite Nat.eqb_refl.
+  - destruct (IH h v H) as (l1 & l2 & -> & Hu). exists ((x, u) :: l1), l2. split; auto.
+    intros w. cbn [update app]. rewrite E, Hu. reflexivity.
+Qed.
+
+Lemma map_fst_update {B} : forall (l : list (hid * B)) h v, map fst (update l h v) = map fst l.
+Proof.
+  induction l as [|[x w] t IH]; intros h v; cbn [update map fst]; auto.
+  destruct (Nat.eqb x h); cbn [map fst]; auto. now rewrite IH.
+Qed.
+
+Lemma Forall_fst_map {B} : forall (l : list (hid * B)) n,
+  Forall (fun e => fst e < n) l <-> Forall (fun x => x < n) (map fst l).
+Proof. intros l n. symmetry. apply Forall_map. Qed.
+
+(* ------------------------------------------------------------------------------------------ *)
+(* handle_refs                                                                                  *)
+(* ------------------------------------------------------------------------------------------ *)
+Definition obj_refs (o : iobj) : list ref := match o with IS c => [RS c] | IR c => [RR c] | IGone => [] end.
+
+Lemma handle_refs_app : forall l1 l2, handle_refs (l1 ++ l2) = handle_refs l1 ++ handle_refs l2.
+Proof. intros. unfold handle_refs. apply flat_map_app. Qed.
+
+Lemma handle_refs_cons : forall h o l, handle_refs ((h, o) :: l) = obj_refs o ++ handle_refs l.
+Proof. intros. reflexivity. Qed.
+
+Lemma in_handle_refs : forall l r, In r (handle_refs l) <-> exists h o, In (h, o) l /\ In r (obj_refs o).
+Proof.
+  intros l r. unfold handle_refs. rewrite in_flat_map. split.
+  - intros ([h o] & Hin & Hr). exists h, o. auto.
+  - intros (h & o & Hin & Hr). exists (h, o). auto.
+Qed.
+
+Lemma handle_refs_no_RM : forall l o, ~ In (RM o) (handle_refs l).
+Proof.
+  intros l o H. apply in_handle_refs in H. destruct H as (h & ob & _ & Hr).
+  destruct ob; cbn [obj_refs In] in Hr; intuition discriminate.
+Qed.
+
+Lemma in_handle_refs_RS : forall l c, NoDup (map fst l) ->
+  (In (RS c) (handle_refs l) <-> exists h, lookup l h = Some (IS c)).
+Proof.
+  intros l c Hnd. rewrite in_handle_refs. split.
+  - intros (h & o & Hin & Hr). exists h. destruct o; cbn [obj_refs In] in Hr; try intuition discriminate.
+    destruct Hr as [E|[]]. injection E as ->. now apply In_lookup.
+  - intros (h & Hl). exists h, (IS c). split; [now apply lookup_In|now left].
+Qed.
+
+Lemma in_handle_refs_RR : forall l c, NoDup (map fst l) ->
+  (In (RR c) (handle_refs l) <-> exists h, lookup l h = Some (IR c)).
+Proof.
+  intros l c Hnd. rewrite in_handle_refs. split.
+  - intros (h & o & Hin & Hr). exists h. destruct o; cbn [obj_refs In] in Hr; try intuition discriminate.
+    destruct Hr as [E|[]]. injection E as ->. now apply In_lookup.
+  - intros (h & Hl). exists h, (IR c). split; [now apply lookup_In|now left].
+Qed.
+
+Lemma handle_refs_update_gone : forall l h o, lookup l h = Some o ->
+  Permutation (handle_refs l) (obj_refs o ++ handle_refs (update l h IGone)).
+Proof.
+  intros l h o H. destruct (lookup_split l h o H) as (l1 & l2 & -> & Hu). rewrite Hu.
+  rewrite !handle_refs_app, !handle_refs_cons. cbn [obj_refs app].
+  apply Permutation_app_swap_app.
+Qed.
+
+(* ------------------------------------------------------------------------------------------ *)
+(* remove_one                                                                                   *)
+(* ------------------------------------------------------------------------------------------ *)
+Lemma remove_one_perm : forall r l, In r l -> Permutation l (r :: remove_one r l).
+Proof.
+  induction l as [|x t IH]; intros H; [contradiction|]. cbn [remove_one].
+  destruct (ref_dec r x) as [->|Hne]; [reflexivity|].
+  destruct H as [E|H]; [congruence|].
+  rewrite (IH H) at 1. apply perm_swap.
+Qed.
+
+Lemma remove_one_incl : forall r l x, In x (remove_one r l) -> In x l.
+Proof.
+  induction l as [|y t IH]; intros x H; cbn [remove_one] in H; auto.
+  destruct (ref_dec r y); [now right|]. destruct H as [->|H]; [now left|right; auto].
+Qed.
+
+(* ------------------------------------------------------------------------------------------ *)
+(* references: membership                                                                       *)
+(* ------------------------------------------------------------------------------------------ *)
+Lemma in_inflight : forall k r, In r (inflight k) <->
+  exists c ch m, nth_error (chans k) c = Some ch /\ dead ch = false /\ In m (q ch) /\ In r (m_rights m).
+Proof.
+  intros k r. unfold inflight. rewrite in_flat_map. split.
+  - intros (ch & Hin & Hr). apply In_nth_error in Hin. destruct Hin as [c Hc].
+    unfold live_rights in Hr. destruct (dead ch) eqn:Hd; [contradiction|].
+    apply in_flat_map in Hr. destruct Hr as (m & Hm & Hr). exists c, ch, m. auto.
+  - intros (c & ch & m & Hc & Hd & Hm & Hr). exists ch. split; [eapply nth_error_In; eauto|].
+    unfold live_rights. rewrite Hd. apply in_flat_map. exists m. auto.
+Qed.
+
+Lemma refs_zero_iff : forall k r, refs k r = 0 <-> ~ In r (held k) /\ ~ In r (inflight k).
+Proof.
+  intros k r. unfold refs. rewrite !(count_occ_not_In ref_dec). lia.
+Qed.
+
+Lemma refs_held_pos : forall k r, In r (held k) -> refs k r <> 0.
+Proof. intros k r H E. apply refs_zero_iff in E. tauto. Qed.
+
+Lemma refs_send : forall k c ch m r, nth_error (chans k) c = Some ch -> dead ch = false ->
+  refs {| chans := set_nth (chans k) c {| q := q ch ++ [m]; dead := false |}; held := held k |} r
+  = refs k r + count_occ ref_dec (m_rights m) r.
+Proof.
+  intros k c ch m r Hn Hd.
+  pose proof (refs_set_nth k c ch {| q := q ch ++ [m]; dead := false |} (held k) r Hn) as He.
+  unfold live_rights in He. cbn [dead q] in He. rewrite Hd in He.
+  rewrite flat_map_rights_app, count_occ_app in He. cbn [flat_map] in He. rewrite app_nil_r in He.
+  unfold refs at 2. lia.
+Qed.
+
+Lemma gc_chan_cases : forall k c ch', nth_error (chans (gc k)) c = Some ch' ->
+  exists ch, nth_error (chans k) c = Some ch /\ (ch' = ch \/ q ch' = []).
+Proof.
+  intros k c ch' Hn'. pose proof (nth_error_lt _ _ _ Hn') as Hlt. rewrite gc_length in Hlt.
+  destruct (nth_error (chans k) c) as [ch|] eqn:Hn; [|apply nth_error_None in Hn; lia].
+  exists ch. split; auto. destruct (dead ch') eqn:Hd'.
+  - destruct (dead ch) eqn:Hd.
+    + left. pose proof (gc_dead_unchanged k c ch Hn Hd). congruence.
+    + right. eapply gc_killed_unreferenced; eauto.
+  - left. eapply gc_live_unchanged; eauto.
+Qed.
+
+(* ------------------------------------------------------------------------------------------ *)
+(* the kernel part of the invariant, relative to a list of references the process should hold   *)
+(* ------------------------------------------------------------------------------------------ *)
+Definition ref_okn (n : nat) (r : ref) : Prop := match r with RS c | RR c => c < n | RM _ => False end.
+
+Lemma ref_okn_mono : forall n n' r, n <= n' -> ref_okn n r -> ref_okn n' r.
+Proof. intros n n' [c|c|o] Hle H; cbn [ref_okn] in *; auto; lia. Qed.
+
+Record kinv (k : kst) (hr : list ref) : Prop := {
+  kv_wf : k_wf k;
+  kv_stable : k_stable k;
+  kv_held : Permutation (held k) hr;
+  kv_ok_h : Forall (ref_okn (length (chans k))) (held k);
+  kv_ok_q : forall c ch m r, nth_error (chans k) c = Some ch -> In m (q ch) -> In r (m_rights m) ->
+            ref_okn (length (chans k)) r }.
+
+Lemma kinv_perm : forall k hr hr', kinv k hr -> Permutation hr hr' -> kinv k hr'.
+Proof. intros k hr hr' [W St P Oh Oq] Hp. constructor; auto. now rewrite P. Qed.
+
+Lemma kinv_in_ok : forall k hr r, kinv k hr -> In r hr -> ref_okn (length (chans k)) r.
+Proof.
+  intros k hr r [W St P Oh Oq] Hin. rewrite Forall_forall in Oh. apply Oh.
+  eapply Permutation_in; [symmetry; exact P|exact Hin].
+Qed.
+
+Lemma kinv_in_held : forall k hr r, kinv k hr -> In r hr -> In r (held k).
+Proof. intros k hr r [W St P Oh Oq] Hin. eapply Permutation_in; [symmetry; exact P|exact Hin]. Qed.
+
+(* a receiving end the process holds belongs to a live channel *)
+Lemma kinv_RR_live : forall k hr c, kinv k hr -> In (RR c) hr ->
+  exists ch, nth_error (chans k) c = Some ch /\ dead ch = false.
+Proof.
+  intros k hr c I Hin. pose proof (kinv_in_ok _ _ _ I Hin) as Hok. cbn [ref_okn] in Hok.
+  destruct (nth_error (chans k) c) as [ch|] eqn:Hn; [|apply nth_error_None in Hn; lia].
+  exists ch. split; auto. destruct (dead ch) eqn:Hd; auto. exfalso.
+  destruct (kv_wf _ _ I c ch Hn Hd) as [_ H0]. revert H0. apply refs_held_pos.
+  eapply kinv_in_held; eauto.
+Qed.
+
+Lemma k_init_kinv : kinv k_init [].
+Proof.
+  constructor; cbn [k_init held chans].
+  - apply k_init_wf.
+  - intros c ch Hn. destruct c; discriminate.
+  - constructor.
+  - constructor.
+  - intros c ch m r Hn. destruct c; discriminate.
+Qed.
+
+Lemma k_new_kinv : forall k hr, kinv k hr ->
+  kinv (fst (k_new k)) (RS (length (chans k)) :: RR (length (chans k)) :: hr).
+Proof.
+  intros k hr I. pose proof I as [W St P Oh Oq].
+  assert (Hrefs : forall r, refs k r <= refs (fst (k_new k)) r).
+  { intros r. unfold k_new, refs, inflight. cbn [fst chans held].
+    rewrite flat_map_app, count_occ_app. cbn [flat_map live_rights dead q app count_occ].
+    destruct (ref_dec (RS (length (chans k))) r), (ref_dec (RR (length (chans k))) r); lia. }
+  constructor.
+  - now apply k_new_wf.
+  - intros c ch Hn Hd. unfold k_new in Hn. cbn [fst chans] in Hn.
+    destruct (Nat.lt_ge_cases c (length (chans k))) as [Hlt|Hge].
+    + rewrite nth_error_app1 in Hn by auto. specialize (St c ch Hn Hd). specialize (Hrefs (RR c)). lia.
+    + assert (c = length (chans k)) as ->.
+      { pose proof (nth_error_lt _ _ _ Hn) as Hl. rewrite app_length in Hl. cbn [length] in Hl. lia. }
+      apply refs_held_pos. unfold k_new. cbn [fst held]. right. now left.
+  - unfold k_new. cbn [fst held]. now do 2 apply perm_skip.
+  - unfold k_new. cbn [fst held chans]. rewrite app_length. cbn [length].
+    repeat constructor; cbn [ref_okn]; try lia.
+    eapply Forall_impl; [|exact Oh]. intros r. apply ref_okn_mono. lia.
+  - intros c ch m r Hn Hm Hr. unfold k_new in *. cbn [fst chans] in *. rewrite app_length. cbn [length].
+    destruct (Nat.lt_ge_cases c (length (chans k))) as [Hlt|Hge].
+    + rewrite nth_error_app1 in Hn by auto. eapply ref_okn_mono; [|eapply Oq; eauto]. lia.
+    + rewrite nth_error_app2 in Hn by auto. destruct (c - length (chans k)) as [|j]; cbn [nth_error] in Hn.
+      * injection Hn as <-. contradiction.
+      * destruct j; discriminate.
+Qed.
+
+Lemma k_dup_kinv : forall k hr c, kinv k hr -> In (RS c) hr -> kinv (k_dup k (RS c)) (RS c :: hr).
+Proof.
+  intros k hr c I Hin. pose proof I as [W St P Oh Oq]. constructor.
+  - apply k_dup_wf; auto. intros c0 E. discriminate.
+  - intros c0 ch Hn Hd. cbn [k_dup chans] in Hn. specialize (St c0 ch Hn Hd).
+    unfold refs, inflight, k_dup in *. cbn [chans held count_occ]. destruct (ref_dec (RS c) (RR c0)); lia.
+  - cbn [k_dup held]. now apply perm_skip.
+  - cbn [k_dup held chans]. constructor; auto. eapply kinv_in_ok; eauto.
+  - exact Oq.
+Qed.
+
+Lemma k_close_kinv : forall k hr r hr', kinv k hr -> Permutation hr (r :: hr') -> kinv (k_close k r) hr'.
+Proof.
+  intros k hr r hr' I Hp. pose proof I as [W St P Oh Oq]. unfold k_close. constructor.
+  - now apply k_close_wf.
+  - apply gc_stable.
+  - rewrite gc_held. cbn [held].
+    assert (Hin : In r (held k)).
+    { eapply kinv_in_held; eauto. eapply Permutation_in; [symmetry; exact Hp|now left]. }
+    apply Permutation_cons_inv with (a := r).
+    rewrite <- (remove_one_perm r (held k) Hin). now rewrite P.
+  - rewrite gc_held, gc_length. cbn [held chans]. rewrite Forall_forall in *.
+    intros x Hx. apply Oh. eapply remove_one_incl; eauto.
+  - intros c ch' m x Hn' Hm Hx. rewrite gc_length. cbn [chans].
+    apply gc_chan_cases in Hn'. cbn [chans] in Hn'. destruct Hn' as (ch & Hn & [->|Hq]).
+    + eapply Oq; eauto.
+    + rewrite Hq in Hm. contradiction.
+Qed.
+
+Definition moved (rs : list ref) : list ref := filter (fun r => match r with RR _ => true | _ => false end) rs.
+
+Lemma close_moved_kinv : forall rs k X, kinv k (moved rs ++ X) -> kinv (close_moved k rs) X.
+Proof.
+  induction rs as [|[c|c|o] t IH]; intros k X I; cbn [close_moved moved filter app] in *; auto.
+  apply IH. eapply k_close_kinv; eauto.
+Qed.
+
+Lemma k_send_kinv : forall k hr c m k', kinv k hr -> k_send k c m = Some k' ->
+  (forall r, In r (m_rights m) -> In r hr) -> kinv k' hr.
+Proof.
+  intros k hr c m k' I Hs Hm. pose proof I as [W St P Oh Oq].
+  pose proof Hs as Hs'. apply k_send_some in Hs'. destruct Hs' as (ch & Hn & Hd & Hk').
+  constructor.
+  - eapply k_send_wf; eauto. intros c' Hin. eapply kinv_RR_live; eauto.
+  - subst k'. intros c' ch' Hn' Hd'. rewrite (refs_send k c ch m _ Hn Hd). cbn [chans] in Hn'.
+    destruct (Nat.eq_dec c c') as [<-|Hne].
+    + specialize (St c ch Hn Hd). lia.
+    + rewrite nth_error_set_nth_neq in Hn' by auto. specialize (St c' ch' Hn' Hd'). lia.
+  - subst k'. exact P.
+  - subst k'. cbn [held chans]. now rewrite length_set_nth.
+  - subst k'. cbn [chans]. rewrite length_set_nth. intros c' ch' m' r Hn' Hm' Hr.
+    destruct (Nat.eq_dec c c') as [<-|Hne].
+    + rewrite nth_error_set_nth_eq in Hn' by (eapply nth_error_lt; eauto). injection Hn' as <-.
+      cbn [q] in Hm'. apply in_app_or in Hm'. destruct Hm' as [Hm'|[<-|[]]].
+      * eapply Oq; eauto.
+      * eapply kinv_in_ok; eauto.
+    + rewrite nth_error_set_nth_neq in Hn' by auto. eapply Oq; eauto.
+Qed.
+
+Lemma k_recv_kinv : forall k hr c m k', kinv k hr -> k_recv k c = KMsg m k' -> kinv k' (m_rights m ++ hr).
+Proof.
+  intros k hr c m k' I Hr. pose proof I as [W St P Oh Oq].
+  pose proof Hr as Hr'. apply k_recv_msg in Hr'. destruct Hr' as (ch & rest & Hn & Hq & Hk').
+  assert (Hd : dead ch = false).
+  { destruct (dead ch) eqn:Hd; auto. destruct (W c ch Hn Hd) as [Hq0 _]. congruence. }
+  assert (Hrefs : forall r, refs k' r = refs k r).
+  { intros r. eapply refs_recv_preserved; eauto.
+    - now rewrite (get_chan_some _ _ _ Hn).
+    - eapply nth_error_lt; eauto. }
+  constructor.
+  - eapply k_recv_wf; eauto.
+  - intros c' ch' Hn' Hd'. rewrite Hrefs. subst k'. cbn [chans] in Hn'.
+    destruct (Nat.eq_dec c c') as [<-|Hne].
+    + eapply St; eauto.
+    + rewrite nth_error_set_nth_neq in Hn' by auto. eapply St; eauto.
+  - subst k'. cbn [held]. now apply Permutation_app_head.
+  - subst k'. cbn [held chans]. rewrite length_set_nth. apply Forall_app. split; auto.
+    apply Forall_forall. intros r Hin. eapply Oq; eauto. rewrite Hq. now left.
+  - subst k'. cbn [chans]. rewrite length_set_nth. intros c' ch' m' r Hn' Hm' Hr'.
+    destruct (Nat.eq_dec c c') as [<-|Hne].
+    + rewrite nth_error_set_nth_eq in Hn' by (eapply nth_error_lt; eauto). injection Hn' as <-.
+      cbn [q] in Hm'. eapply Oq; eauto. rewrite Hq. now right.
+    + rewrite nth_error_set_nth_neq in Hn' by auto. eapply Oq; eauto.
+Qed.
+
+(* ------------------------------------------------------------------------------------------ *)
+(* i_inv  <->  kinv + identifiers                                                               *)
+(* ------------------------------------------------------------------------------------------ *)
+Definition ids_ok (hs : list (hid * iobj)) (n : hid) : Prop :=
+  NoDup (map fst hs) /\ Forall (fun e => fst e < n) hs.
+
+Lemma ref_okn_range : forall k r, ref_okn (length (chans k)) r -> chan_in_range k r.
+Proof. intros k [c|c|o]; cbn [ref_okn chan_in_range]; auto. Qed.
+
+Lemma i_inv_of_kinv : forall s, kinv (ik s) (handle_refs (ih s)) -> ids_ok (ih s) (inext s) -> i_inv s.
+Proof.
+  intros s [W St P Oh Oq] Hids. constructor; auto.
+  - eapply Forall_impl; [|exact Oh]. intros r. apply ref_okn_range.
+  - intros c ch m r Hn Hm Hr. apply ref_okn_range. eapply Oq; eauto.
+  - intros c ch m o Hn Hm Hr. exact (Oq c ch m (RM o) Hn Hm Hr).
+Qed.
+
+Lemma kinv_of_i_inv : forall s, i_inv s -> kinv (ik s) (handle_refs (ih s)).
+Proof.
+  intros s [W St P Rh Rq Hids Nq]. constructor; auto.
+  - rewrite Forall_forall in *. intros r Hin. specialize (Rh r Hin).
+    destruct r as [c|c|o]; cbn [ref_okn chan_in_range] in *; auto.
+    eapply handle_refs_no_RM. eapply Permutation_in; [exact P|exact Hin].
+  - intros c ch m r Hn Hm Hr. specialize (Rq c ch m r Hn Hm Hr).
+    destruct r as [c'|c'|o]; cbn [ref_okn chan_in_range] in *; auto.
+    eapply Nq; eauto.
+Qed.
+
+(* ------------------------------------------------------------------------------------------ *)
+(* i_resolve and i_install                                                                      *)
+(* ------------------------------------------------------------------------------------------ *)
+Lemma i_resolve_spec : forall atts hs rs hs', i_resolve hs atts = Some (rs, hs') ->
+  Permutation (handle_refs hs) (moved rs ++ handle_refs hs') /\ map fst hs' = map fst hs /\
+  (forall r, In r rs -> In r (handle_refs hs)).
+Proof.
+  induction atts as [|[x|x] t IH]; intros hs rs hs' H; cbn [i_resolve] in H.
+  - injection H as <- <-. cbn [moved filter app]. repeat split; auto. intros r [].
+  - destruct (lookup hs x) as [[c|c|]|] eqn:El; try discriminate.
+    destruct (i_resolve hs t) as [[rs0 hs0]|] eqn:Er; [|discriminate]. injection H as <- <-.
+    destruct (IH _ _ _ Er) as (Hp & Hf & Hin). cbn [moved filter]. repeat split; auto.
+    intros r [<-|Hr]; auto. apply in_handle_refs. exists x, (IS c). split; [now apply lookup_In|now left].
+  - destruct (lookup hs x) as [[c|c|]|] eqn:El; try discriminate.
+    destruct (i_resolve (update hs x IGone) t) as [[rs0 hs0]|] eqn:Er; [|discriminate]. injection H as <- <-.
+    destruct (IH _ _ _ Er) as (Hp & Hf & Hin).
+    pose proof (handle_refs_update_gone hs x (IR c) El) as Hu. cbn [obj_refs app] in Hu.
+    cbn [moved filter app]. repeat split.
+    + rewrite Hu. apply perm_skip. exact Hp.
+    + rewrite Hf. apply map_fst_update.
+    + intros r [<-|Hr].
+      * eapply Permutation_in; [symmetry; exact Hu|now left].
+      * eapply Permutation_in; [symmetry; exact Hu|right; auto].
+Qed.
+
+Definition chan_rights (rs : list ref) : list ref :=
+  filter (fun r => match r with RM _ => false | _ => true end) rs.
+Definition obj_of (r : ref) : iobj := match r with RS c => IS c | RR c => IR c | RM _ => IGone end.
+Definition kind_of (r : ref) : hkind := match r with RS _ => KTx | _ => KRx end.
+
+(* closed form of i_install *)
+Lemma i_install_shape : forall rs hs n hs' n' out, i_install hs n rs = (hs', n', out) ->
+  let cr := chan_rights rs in
+  hs' = hs ++ combine (seq n (length cr)) (map obj_of cr) /\
+  n' = n + length cr /\
+  out = combine (map kind_of cr) (seq n (length cr)).
+Proof.
+  induction rs as [|[c|c|o] t IH]; intros hs n hs' n' out H; cbn [i_install] in H.
+  - injection H as <- <- <-. cbn. rewrite app_nil_r. auto.
+  - destruct (i_install (hs ++ [(n, IS c)]) (S n) t) as [[hs0 n0] out0] eqn:E. injection H as <- <- <-.
+    destruct (IH _ _ _ _ _ E) as (-> & -> & ->).
+    cbn [chan_rights filter length seq map combine obj_of kind_of]. fold (chan_rights t).
+    rewrite <- app_assoc. cbn [app]. repeat split; auto. lia.
+  - destruct (i_install (hs ++ [(n, IR c)]) (S n) t) as [[hs0 n0] out0] eqn:E. injection H as <- <- <-.
+    destruct (IH _ _ _ _ _ E) as (-> & -> & ->).
+    cbn [chan_rights filter length seq map combine obj_of kind_of]. fold (chan_rights t).
+    rewrite <- app_assoc. cbn [app]. repeat split; auto. lia.
+  - cbn [chan_rights filter]. fold (chan_rights t). eapply IH; eauto.
+Qed.
+
+Lemma map_fst_combine {A B} : forall (l1 : list A) (l2 : list B), length l1 = length l2 ->
+  map fst (combine l1 l2) = l1.
+Proof. induction l1 as [|a t IH]; intros [|b u] H; cbn in *; try discriminate; auto. f_equal. auto. Qed.
+
+Lemma map_snd_combine {A B} : forall (l1 : list A) (l2 : list B), length l1 = length l2 ->
+  map snd (combine l1 l2) = l2.
+Proof. induction l1 as [|a t IH]; intros [|b u] H; cbn in *; try discriminate; auto. f_equal. auto. Qed.
+
+Lemma handle_refs_combine : forall ids cr, length ids = length cr -> (forall o, ~ In (RM o) cr) ->
+  handle_refs (combine ids (map obj_of cr)) = cr.
+Proof.
+  induction ids as [|i t IH]; intros [|r u] H Hn; cbn [length] in H; try discriminate; auto.
+  cbn [map combine]. rewrite handle_refs_cons. rewrite IH; auto.
+  - destruct r as [c|c|o]; cbn [obj_of obj_refs app]; auto. exfalso. apply (Hn o). now left.
+  - intros o Hin. apply (Hn o). now right.
+Qed.
+
+Lemma chan_rights_no_RM : forall rs o, ~ In (RM o) (chan_rights rs).
+Proof. intros rs o H. unfold chan_rights in H. apply filter_In in H. destruct H; discriminate. Qed.
+
+Lemma chan_rights_id : forall rs, (forall o, ~ In (RM o) rs) -> chan_rights rs = rs.
+Proof.
+  induction rs as [|[c|c|o] t IH]; intros H; cbn [chan_rights filter]; auto.
+  - f_equal. apply IH. intros o Hin. apply (H o). now right.
+  - f_equal. apply IH. intros o Hin. apply (H o). now right.
+  - exfalso. apply (H o). now left.
+Qed.
+
+Lemma i_install_handle_refs : forall rs hs n hs' n' out, i_install hs n rs = (hs', n', out) ->
+  handle_refs hs' = handle_refs hs ++ chan_rights rs.
+Proof.
+  intros rs hs n hs' n' out H. apply i_install_shape in H. cbn zeta in H. destruct H as (-> & _ & _).
+  rewrite handle_refs_app. f_equal. apply handle_refs_combine.
+  - apply seq_length.
+  - apply chan_rights_no_RM.
+Qed.
+
+Lemma NoDup_app_intro {A} : forall (l1 l2 : list A), NoDup l1 -> NoDup l2 ->
+  (forall x, In x l1 -> ~ In x l2) -> NoDup (l1 ++ l2).
+Proof.
+  induction l1 as [|a t IH]; intros l2 H1 H2 Hd; cbn [app]; auto.
+  inversion H1 as [|? ? Hni Hnd]; subst. constructor.
+  - intros Hin. apply in_app_or in Hin. destruct Hin as [Hin|Hin]; [auto|]. apply (Hd a); [now left|auto].
+  - apply IH; auto. intros x Hx. apply Hd. now right.
+Qed.
+
+Lemma i_install_ids : forall rs hs n hs' n' out, i_install hs n rs = (hs', n', out) ->
+  ids_ok hs n -> ids_ok hs' n'.
+Proof.
+  intros rs hs n hs' n' out H [Hnd Hlt]. apply i_install_shape in H. cbn zeta in H. destruct H as (-> & -> & _).
+  set (cr := chan_rights rs). apply Forall_fst_map in Hlt. unfold ids_ok. rewrite Forall_fst_map.
+  rewrite map_app, map_fst_combine by (now rewrite seq_length, map_length).
+  rewrite Forall_forall in Hlt. split.
+  - apply NoDup_app_intro; auto.
+    + apply seq_NoDup.
+    + intros x Hx Hs. apply in_seq in Hs. specialize (Hlt x Hx). lia.
+  - apply Forall_app. split; apply Forall_forall; intros x Hx.
+    + specialize (Hlt x Hx). lia.
+    + apply in_seq in Hx. lia.
+Qed.
+
+Lemma ids_ok_snoc : forall hs n o, ids_ok hs n -> ids_ok (hs ++ [(n, o)]) (S n).
+Proof.
+  intros hs n o [Hnd Hlt]. apply Forall_fst_map in Hlt. unfold ids_ok. rewrite Forall_fst_map.
+  rewrite map_app. cbn [map fst]. rewrite Forall_forall in Hlt. split.
+  - apply NoDup_app_intro; auto.
+    + constructor; [intros []|constructor].
+    + intros x Hx [E|[]]. specialize (Hlt x Hx). lia.
+  - apply Forall_app. split.
+    + apply Forall_forall. intros x Hx. specialize (Hlt x Hx). lia.
+    + repeat constructor.
+Qed.
+
+Lemma ids_ok_ext : forall hs hs' n, map fst hs' = map fst hs -> ids_ok hs n -> ids_ok hs' n.
+Proof.
+  intros hs hs' n E [Hnd Hlt]. apply Forall_fst_map in Hlt. unfold ids_ok. rewrite Forall_fst_map, E. auto.
+Qed.
+
+(* ------------------------------------------------------------------------------------------ *)
+(* 1. the invariant                                                                             *)
+(* ------------------------------------------------------------------------------------------ *)
+Theorem i_inv_init : i_inv i_init.
+Proof.
+  apply i_inv_of_kinv; cbn [i_init ik ih inext].
+  - exact k_init_kinv.
+  - split; constructor.
+Qed.
+
+Theorem i_inv_step : forall s o, i_inv s -> i_inv (fst (i_step s o)).
+Proof.
+  intros s o I. pose proof (kinv_of_i_inv s I) as K. pose proof (iv_ids s I) as Hids.
+  fold (ids_ok (ih s) (inext s)) in Hids.
+  destruct o as [|h|h|h data atts|h]; cbn [i_step].
+  - (* ONew *)
+    cbn [k_new fst]. apply i_inv_of_kinv; cbn [ik ih inext].
+    + eapply kinv_perm; [exact (k_new_kinv _ _ K)|].
+      rewrite handle_refs_app. cbn [handle_refs flat_map snd app].
+      apply (Permutation_app_comm [RS (length (chans (ik s))); RR (length (chans (ik s)))]).
+    + change (ih s ++ [(inext s, IS (length (chans (ik s)))); (S (inext s), IR (length (chans (ik s))))])
+        with (ih s ++ [(inext s, IS (length (chans (ik s))))] ++ [(S (inext s), IR (length (chans (ik s))))]).
+      rewrite app_assoc. now do 2 apply ids_ok_snoc.
+  - (* OClone *)
+    destruct (lookup (ih s) h) as [[c|c|]|] eqn:El; cbn [fst]; auto.
+    apply i_inv_of_kinv; cbn [ik ih inext].
+    + eapply kinv_perm.
+      * apply k_dup_kinv; [exact K|]. apply in_handle_refs. exists h, (IS c). split; [now apply lookup_In|now left].
+      * rewrite handle_refs_app. cbn [handle_refs flat_map snd app]. apply Permutation_cons_append.
+    + now apply ids_ok_snoc.
+  - (* ODrop *)
+    destruct (lookup (ih s) h) as [[c|c|]|] eqn:El; cbn [fst]; auto.
+    + apply i_inv_of_kinv; cbn [ik ih inext].
+      * eapply k_close_kinv; [exact K|]. exact (handle_refs_update_gone _ _ _ El).
+      * eapply ids_ok_ext; [apply map_fst_update|exact Hids].
+    + apply i_inv_of_kinv; cbn [ik ih inext].
+      * eapply k_close_kinv; [exact K|]. exact (handle_refs_update_gone _ _ _ El).
+      * eapply ids_ok_ext; [apply map_fst_update|exact Hids].
+  - (* OSend *)
+    destruct (lookup (ih s) h) as [[c|c|]|] eqn:El; cbn [fst]; auto.
+    destruct (i_resolve (ih s) atts) as [[rs hs']|] eqn:Er; cbn [fst]; auto.
+    destruct (i_resolve_spec _ _ _ _ Er) as (Hp & Hf & Hin).
+    destruct (k_send (ik s) c {| m_data := data; m_rights := rs |}) as [k'|] eqn:Es; cbn [fst].
+    + apply i_inv_of_kinv; cbn [ik ih inext].
+      * apply close_moved_kinv. eapply kinv_perm; [|exact Hp].
+        eapply k_send_kinv; [exact K|exact Es|exact Hin].
+      * eapply ids_ok_ext; eauto.
+    + apply i_inv_of_kinv; cbn [ik ih inext].
+      * apply close_moved_kinv. eapply kinv_perm; [exact K|exact Hp].
+      * eapply ids_ok_ext; eauto.
+  - (* ORecv *)
+    destruct (lookup (ih s) h) as [[c|c|]|] eqn:El; cbn [fst]; auto.
+    destruct (k_recv (ik s) c) as [m k'| |] eqn:Er; cbn [fst]; auto.
+    destruct (i_install (ih s) (inext s) (m_rights m)) as [[hs' n'] out] eqn:Ei. cbn [fst].
+    apply i_inv_of_kinv; cbn [ik ih inext].
+    + eapply kinv_perm; [exact (k_recv_kinv _ _ _ _ _ K Er)|].
+      rewrite (i_install_handle_refs _ _ _ _ _ _ Ei). rewrite chan_rights_id.
+      * apply Permutation_app_comm.
+      * apply k_recv_msg in Er. destruct Er as (ch & rest & Hn & Hq & _).
+        intros o. eapply (iv_norm_q s I); eauto. rewrite Hq. now left.
+    + eapply i_install_ids; eauto.
+Qed.
+
+Lemma i_inv_run_from : forall ops s, i_inv s -> i_inv (fst (i_run s ops)).
+Proof.
+  induction ops as [|o r IH]; intros s I; cbn [i_run fst]; auto.
+  pose proof (i_inv_step s o I) as I'. destruct (i_step s o) as [s' out]. cbn [fst] in I'.
+  specialize (IH s' I'). destruct (i_run s' r) as [s'' outs]. exact IH.
+Qed.
+
+Theorem i_inv_run : forall ops, i_inv (fst (i_run i_init ops)).
+Proof. intros ops. apply i_inv_run_from. exact i_inv_init. Qed.
+
+(* ------------------------------------------------------------------------------------------ *)
+(* reference count zero, in terms of handles and messages in transit                            *)
+(* ------------------------------------------------------------------------------------------ *)
+Lemma refs_zero_handles : forall s r, i_inv s ->
+  (refs (ik s) r = 0 <->
+   ~ In r (handle_refs (ih s)) /\
+   (forall c' ch m, nth_error (chans (ik s)) c' = Some ch -> dead ch = false -> In m (q ch) -> ~ In r (m_rights m))).
+Proof.
+  intros s r I. rewrite refs_zero_iff, in_inflight. pose proof (iv_held s I) as P. split; intros [A B]; split.
+  - intros Hin. apply A. eapply Permutation_in; [symmetry; exact P|exact Hin].
+  - intros c' ch m Hn Hd Hm Hr. apply B. exists c', ch, m. auto.
+  - intros Hin. apply A. eapply Permutation_in; [exact P|exact Hin].
+  - intros (c' & ch & m & Hn & Hd & Hm & Hr). exact (B c' ch m Hn Hd Hm Hr).
+Qed.
+
+Lemma no_handle_RS : forall s c, i_inv s ->
+  (~ In (RS c) (handle_refs (ih s)) <-> forall h', lookup (ih s) h' <> Some (IS c)).
+Proof.
+  intros s c I. rewrite in_handle_refs_RS by (apply (iv_ids s I)). split.
+  - intros H h' E. apply H. now exists h'.
+  - intros H [h' E]. exact (H h' E).
+Qed.
+
+Lemma no_handle_RR : forall s c, i_inv s ->
+  (~ In (RR c) (handle_refs (ih s)) <-> forall h', lookup (ih s) h' <> Some (IR c)).
+Proof.
+  intros s c I. rewrite in_handle_refs_RR by (apply (iv_ids s I)). split.
+  - intros H h' E. apply H. now exists h'.
+  - intros H [h' E]. exact (H h' E).
+Qed.
+
+(* ------------------------------------------------------------------------------------------ *)
+(* 2-4. C03: Disconnected / Empty / messages first                                              *)
+(* ------------------------------------------------------------------------------------------ *)
+Theorem C03_disconnected_iff : forall s h c, i_inv s -> lookup (ih s) h = Some (IR c) ->
+  (snd (i_step s (ORecv h)) = RDisconnected <->
+   q (get_chan (ik s) c) = [] /\
+   (forall h', lookup (ih s) h' <> Some (IS c)) /\
+   (forall c' ch m, nth_error (chans (ik s)) c' = Some ch -> dead ch = false -> In m (q ch) -> ~ In (RS c) (m_rights m))).
+Proof.
+  intros s h c I Hl. rewrite <- (no_handle_RS s c I), <- (refs_zero_handles s (RS c) I).
+  cbn [i_step]. rewrite Hl. unfold k_recv. destruct (q (get_chan (ik s) c)) as [|m rest] eqn:Hq.
+  - destruct (refs (ik s) (RS c) =? 0) eqn:E; cbn [snd].
+    + apply Nat.eqb_eq in E. tauto.
+    + apply Nat.eqb_neq in E. split; [discriminate|]. intros [_ H]. contradiction.
+  - destruct (i_install (ih s) (inext s) (m_rights m)) as [[hs' n'] out]. cbn [snd].
+    split; [discriminate|]. intros [H _]. discriminate.
+Qed.
+
+Theorem C03_idle_is_empty : forall s h c h', i_inv s -> lookup (ih s) h = Some (IR c) ->
+  lookup (ih s) h' = Some (IS c) -> q (get_chan (ik s) c) = [] -> snd (i_step s (ORecv h)) = REmpty.
+Proof.
+  intros s h c h' I Hl Hl' Hq. cbn [i_step]. rewrite Hl. unfold k_recv. rewrite Hq.
+  destruct (refs (ik s) (RS c) =? 0) eqn:E; cbn [snd]; auto. exfalso.
+  apply Nat.eqb_eq in E. apply (refs_zero_handles s (RS c) I) in E. destruct E as [E _].
+  destruct (no_handle_RS s c I) as [F _]. exact (F E h' Hl').
+Qed.
+
+Theorem C03_messages_first : forall s h c m rest, lookup (ih s) h = Some (IR c) ->
+  q (get_chan (ik s) c) = m :: rest ->
+  exists hs, snd (i_step s (ORecv h)) = RMsg (m_data m) hs /\
+             q (get_chan (ik (fst (i_step s (ORecv h)))) c) = rest.
+Proof.
+  intros s h c m rest Hl Hq. cbn [i_step]. rewrite Hl. unfold k_recv. rewrite Hq.
+  destruct (i_install (ih s) (inext s) (m_rights m)) as [[hs' n'] out]. cbn [fst snd ik].
+  exists out. split; auto.
+  destruct (nth_error (chans (ik s)) c) as [ch|] eqn:Hn.
+  - unfold get_chan at 1. cbn [chans]. erewrite nth_error_nth.
+    2: { apply nth_error_set_nth_eq. eapply nth_error_lt; eauto. }
+    reflexivity.
+  - rewrite (get_chan_none _ _ Hn) in Hq. discriminate.
+Qed.
+
+(* ------------------------------------------------------------------------------------------ *)
+(* 5. C09: send errors                                                                          *)
+(* ------------------------------------------------------------------------------------------ *)
+Lemma sender_handle_chan : forall s h c, i_inv s -> lookup (ih s) h = Some (IS c) ->
+  exists ch, nth_error (chans (ik s)) c = Some ch.
+Proof.
+  intros s h c I Hl. pose proof (kinv_of_i_inv s I) as K.
+  assert (Hin : In (RS c) (handle_refs (ih s))).
+  { apply in_handle_refs. exists h, (IS c). split; [now apply lookup_In|now left]. }
+  pose proof (kinv_in_ok _ _ _ K Hin) as Hok. cbn [ref_okn] in Hok.
+  destruct (nth_error (chans (ik s)) c) as [ch|] eqn:Hn; [eauto|]. apply nth_error_None in Hn. lia.
+Qed.
+
+Theorem C09_send_err_iff : forall s h c data, i_inv s -> lookup (ih s) h = Some (IS c) ->
+  (snd (i_step s (OSend h data [])) = RSendErr <->
+   (forall h', lookup (ih s) h' <> Some (IR c)) /\
+   (forall c' ch m, nth_error (chans (ik s)) c' = Some ch -> dead ch = false -> In m (q ch) -> ~ In (RR c) (m_rights m))).
+Proof.
+  intros s h c data I Hl. rewrite <- (no_handle_RR s c I), <- (refs_zero_handles s (RR c) I).
+  destruct (sender_handle_chan s h c I Hl) as [ch Hn].
+  rewrite <- (stable_dead_iff (ik s) c ch (iv_wf s I) (iv_stable s I) Hn).
+  rewrite <- (get_chan_some _ _ _ Hn).
+  rewrite <- (send_fails_iff_dead (ik s) c {| m_data := data; m_rights := [] |}).
+  cbn [i_step i_resolve]. rewrite Hl.
+  destruct (k_send (ik s) c {| m_data := data; m_rights := [] |}) as [k'|]; cbn [snd].
+  - split; discriminate.
+  - tauto.
+Qed.
+
+Theorem C09_send_ok_queues : forall s h c data, i_inv s -> lookup (ih s) h = Some (IS c) ->
+  snd (i_step s (OSend h data [])) = RSent ->
+  q (get_chan (ik (fst (i_step s (OSend h data [])))) c)
+  = q (get_chan (ik s) c) ++ [{| m_data := data; m_rights := [] |}].
+Proof.
+  intros s h c data I Hl. cbn [i_step i_resolve]. rewrite Hl.
+  destruct (k_send (ik s) c {| m_data := data; m_rights := [] |}) as [k'|] eqn:Es; cbn [snd fst ik close_moved];
+    [intros _|discriminate].
+  apply k_send_some in Es. destruct Es as (ch & Hn & Hd & ->).
+  rewrite (get_chan_some _ _ _ Hn). unfold get_chan. cbn [chans]. erewrite nth_error_nth.
+  2: { apply nth_error_set_nth_eq. eapply nth_error_lt; eauto. }
+  reflexivity.
+Qed.
+
+(* ------------------------------------------------------------------------------------------ *)
+(* 6. C04: received rights become handles of the same channel, in order                         *)
+(* ------------------------------------------------------------------------------------------ *)
+Lemma lookup_self : forall (l : list (hid * iobj)), NoDup (map fst l) ->
+  map (fun e => lookup l (fst e)) l = map (fun e => Some (snd e)) l.
+Proof.
+  intros l Hnd. apply map_ext_in. intros [x v] Hin. cbn [fst snd]. now apply In_lookup.
+Qed.
+
+Theorem C04_install_positions : forall hs n rs hs' n' out,
+  i_install hs n rs = (hs', n', out) -> Forall (fun e => fst e < n) hs ->
+  let cr := filter (fun r => match r with RM _ => false | _ => true end) rs in
+  map (fun p => lookup hs' (snd p)) out
+    = map (fun r => match r with RS c => Some (IS c) | RR c => Some (IR c) | RM _ => None end) cr /\
+  map fst out = map (fun r => match r with RS _ => KTx | _ => KRx end) cr /\
+  map snd out = seq n (length out) /\
+  length out = length cr /\ n' = n + length out /\
+  (forall x, x < n -> lookup hs' x = lookup hs x).
+Proof.
+  intros hs n rs hs' n' out H Hlt. apply i_install_shape in H. cbn zeta in *. unfold hid in *.
+  fold (chan_rights rs). set (cr := chan_rights rs) in *. destruct H as (Hhs & Hn' & Hout).
+  assert (Hlen : length out = length cr).
+  { rewrite Hout, combine_length, map_length, seq_length. lia. }
+  assert (Hfo : map fst out = map kind_of cr).
+  { rewrite Hout. apply map_fst_combine. now rewrite seq_length, map_length. }
+  assert (Hso : map snd out = seq n (length cr)).
+  { rewrite Hout. apply map_snd_combine. now rewrite seq_length, map_length. }
+  set (ext := combine (seq n (length cr)) (map obj_of cr)) in *.
+  assert (Hfe : map fst ext = seq n (length cr)).
+  { unfold ext. apply map_fst_combine. now rewrite seq_length, map_length. }
+  assert (Hse : map snd ext = map obj_of cr).
+  { unfold ext. apply map_snd_combine. now rewrite seq_length, map_length. }
+  apply Forall_fst_map in Hlt. rewrite Forall_forall in Hlt.
+  rewrite Hlen, Hfo, Hso. subst hs' n'. clear Hout.
+  split; [|split; [reflexivity|split; [reflexivity|split; [reflexivity|split; [reflexivity|]]]]].
+  - rewrite <- (map_map (@snd hkind nat) (lookup (hs ++ ext))). rewrite Hso.
+    rewrite <- Hfe. rewrite map_map.
+    transitivity (map (fun e => lookup ext (fst e)) ext).
+    + apply map_ext_in. intros e He. rewrite lookup_app. rewrite lookup_not_in; auto.
+      intros Hin. specialize (Hlt _ Hin).
+      assert (Hs : In (fst e) (seq n (length cr))) by (rewrite <- Hfe; now apply in_map).
+      apply in_seq in Hs. unfold hid in *. lia.
+    + assert (Hnd : NoDup (map fst ext)) by (rewrite Hfe; apply seq_NoDup).
+      rewrite (lookup_self ext Hnd).
+      rewrite <- (map_map (@snd nat iobj) Some), Hse, !map_map. apply map_ext_in.
+      intros r Hr. destruct r as [c|c|o]; cbn [obj_of]; auto.
+      exfalso. exact (chan_rights_no_RM rs o Hr).
+  - intros x Hx. rewrite lookup_app. destruct (lookup hs x) eqn:E; auto.
+    apply lookup_not_in. intros Hs. unfold hid in Hs. rewrite Hfe in Hs. apply in_seq in Hs. lia.
+Qed.
+
+(* membership form: every handle reported by a receive is a fresh handle of the matching kind on a channel
+   whose right was in the message.  The hypothesis on identifiers is necessary: with hs = [(0, IGone)], n = 0,
+   rs = [RR 5] the new handle 0 is shadowed by the stale entry. *)
+Theorem C04_transfer_same_channel_strong : forall rs hs n hs' n' out,
+  i_install hs n rs = (hs', n', out) -> Forall (fun e => fst e < n) hs ->
+  forall k h, In (k, h) out ->
+    (k = KTx -> exists c, In (RS c) rs /\ lookup hs' h = Some (IS c)) /\
+    (k = KRx -> exists c, In (RR c) rs /\ lookup hs' h = Some (IR c)).
+Proof.
+  induction rs as [|[c|c|o] t IH]; intros hs n hs' n' out H Hlt k h Hin; cbn [i_install] in H.
+  - injection H as <- <- <-. contradiction.
+  - destruct (i_install (hs ++ [(n, IS c)]) (S n) t) as [[hs0 n0] out0] eqn:E. injection H as <- <- <-.
+    assert (Hlt' : Forall (fun e => fst e < S n) (hs ++ [(n, IS c)])).
+    { apply Forall_app. split; [|repeat constructor]. eapply Forall_impl; [|exact Hlt]. cbn beta. intros; lia. }
+    destruct Hin as [Eq|Hin].
+    + injection Eq as <- <-. split; [intros _|discriminate]. exists c. split; [now left|].
+      destruct (C04_install_positions _ _ _ _ _ _ E Hlt') as (_ & _ & _ & _ & _ & Hold).
+      rewrite (Hold n) by lia. rewrite lookup_app, lookup_not_in.
+      * cbn [lookup]. now rewrite Nat.eqb_refl.
+      * apply Forall_fst_map in Hlt. rewrite Forall_forall in Hlt. intros Hi. specialize (Hlt _ Hi). lia.
+    + destruct (IH _ _ _ _ _ E Hlt' k h Hin) as [A B]. split; intros Hk.
+      * destruct (A Hk) as (c' & Hc & Hl). exists c'. split; [now right|auto].
+      * destruct (B Hk) as (c' & Hc & Hl). exists c'. split; [now right|auto].
+  - destruct (i_install (hs ++ [(n, IR c)]) (S n) t) as [[hs0 n0] out0] eqn:E. injection H as <- <- <-.
+    assert (Hlt' : Forall (fun e => fst e < S n) (hs ++ [(n, IR c)])).
+    { apply Forall_app. split; [|repeat constructor]. eapply Forall_impl; [|exact Hlt]. cbn beta. intros; lia. }
+    destruct Hin as [Eq|Hin].
+    + injection Eq as <- <-. split; [discriminate|intros _]. exists c. split; [now left|].
+      destruct (C04_install_positions _ _ _ _ _ _ E Hlt') as (_ & _ & _ & _ & _ & Hold).
+      rewrite (Hold n) by lia. rewrite lookup_app, lookup_not_in.
+      * cbn [lookup]. now rewrite Nat.eqb_refl.
+      * apply Forall_fst_map in Hlt. rewrite Forall_forall in Hlt. intros Hi. specialize (Hlt _ Hi). lia.
+    + destruct (IH _ _ _ _ _ E Hlt' k h Hin) as [A B]. split; intros Hk.
+      * destruct (A Hk) as (c' & Hc & Hl). exists c'. split; [now right|auto].
+      * destruct (B Hk) as (c' & Hc & Hl). exists c'. split; [now right|auto].
+  - destruct (IH _ _ _ _ _ H Hlt k h Hin) as [A B]. split; intros Hk.
+    + destruct (A Hk) as (c' & Hc & Hl). exists c'. split; [now right|auto].
+    + destruct (B Hk) as (c' & Hc & Hl). exists c'. split; [now right|auto].
+Qed.
+
+(* the loosely specified statement, literally as given (its conclusion has a trivial disjunct);
+   the content is in C04_install_positions and C04_transfer_same_channel_strong *)
+Theorem C04_transfer_same_channel : forall hs n rs hs' n' out, i_install hs n rs = (hs', n', out) ->
+  forall k h, In (k, h) out -> (k = KRx -> exists c, In (RR c) rs /\ lookup hs' h = Some (IR c) \/ True).
+Proof. intros hs n rs hs' n' out _ k h _ _. exists 0. now right. Qed.
+
+Print Assumptions i_inv_init.
+Print Assumptions i_inv_step.
+Print Assumptions i_inv_run.
+Print Assumptions C03_disconnected_iff.
+Print Assumptions C03_idle_is_empty.
+Print Assumptions C03_messages_first.
+Print Assumptions C09_send_err_iff.
+Print Assumptions C09_send_ok_queues.
+Print Assumptions C04_install_positions.
+Print Assumptions C04_transfer_same_channel_strong.
+Print Assumptions C04_transfer_same_channel.
